@@ -145,6 +145,7 @@ type mcBar struct {
 	spec   *BarSpec
 	gone   bool // left the container (removed or popped out)
 	popped bool
+	handed bool // its hand-over frame (second terminal frame) has been flushed
 }
 
 // Sim simulates a sequential manual-refresh scenario. It returns the predicted
@@ -159,8 +160,9 @@ type Sim struct {
 	Cancelled bool
 	Displayed map[int]bool // bars that were ever displayed
 	FinalHeap []int        // bars still in the container at the end
-	LateSucc  []int        // successors parked behind an already flushed predecessor
-	Overwrote []int        // successors overwritten in the queue map
+	LateSucc  []int        // successors created after their predecessor's hand-over frame (they come in at once)
+	Overwrote []int        // successors that share their predecessor with an earlier successor
+	Replaced  []int        // finished bars that were still in the container when a late successor took their place
 	PopTick   map[int]int  // bar -> render cycle (1-based) in which it was moved to the top
 	Fills     map[int]int  // bar -> number of times its filler was called
 	Errored   bool         // a filler/extender fault ended rendering
@@ -194,7 +196,7 @@ func Simulate(sc *Scenario) *Sim {
 	}
 	idCount := 0
 	popPrio := math.MinInt32
-	queue := map[int]int{} // predecessor -> successor
+	queue := map[int][]int{} // predecessor -> successors waiting for its hand-over frame
 	var pendingText []string
 	lazyDirty := false
 	delayed := sc.Cfg.Delay
@@ -256,14 +258,27 @@ func Simulate(sc *Scenario) *Sim {
 			idCount++
 			if a := b.spec.QueueAfter; a >= 0 && a < len(s.Bars) && s.Bars[a].added {
 				pred := s.Bars[a]
-				if old, ok := queue[a]; ok {
-					s.Overwrote = append(s.Overwrote, old)
+				if len(queue[a]) > 0 {
+					s.Overwrote = append(s.Overwrote, st.Bar)
 				}
-				if pred.gone || (pred.m.Terminal() && pred.sd >= 2) {
+				if pred.handed {
+					// the predecessor has been through its hand-over frame: the bar
+					// comes in at once, in the predecessor's place (a predecessor that
+					// is still in the container leaves; one that was popped to the top
+					// keeps its final place and the bar its own priority)
 					s.LateSucc = append(s.LateSucc, st.Bar)
+					if !pred.popped {
+						b.prio = pred.prio
+						if pred.inHeap {
+							pred.inHeap, pred.gone = false, true
+							s.Replaced = append(s.Replaced, a)
+						}
+					}
+					b.inHeap = true
+				} else {
+					queue[a] = append(queue[a], st.Bar)
+					b.parked = true
 				}
-				queue[a] = st.Bar
-				b.parked = true
 			} else {
 				b.inHeap = true
 			}
@@ -392,13 +407,16 @@ func Simulate(sc *Scenario) *Sim {
 				x.sd++
 				switch sd {
 				case 1:
-					if succ, ok := queue[i]; ok {
+					x.handed = true
+					if succs, ok := queue[i]; ok {
 						delete(queue, i)
 						x.inHeap, x.gone = false, true
-						sb := s.Bars[succ]
-						sb.parked, sb.inHeap = false, true
-						sb.prio = x.prio
-						pushes = append(pushes, succ)
+						for _, succ := range succs {
+							sb := s.Bars[succ]
+							sb.parked, sb.inHeap = false, true
+							sb.prio = x.prio
+							pushes = append(pushes, succ)
+						}
 					} else if sc.Cfg.Pop && !x.spec.NoPop {
 						popOld[i] = x.prio
 						s.PopTick[i] = ticks
